@@ -11,7 +11,7 @@ From LV Require Import Base.Bytes Base.Sx Model.Obj Model.Writer Model.Parser Mo
 From LV Require Model.A85 Model.AsciiHex Spec.AsciiHexSpec Proofs.AsciiHexProofs.
 From LV Require Import Proofs.SpellingNumProofs Proofs.SpellingObjProofs Proofs.SpellingFileProofs Proofs.SpellingProofsLitRaw.
 From LV Require Model.Utf Proofs.LoadsFrameProofs Proofs.LoadsTableProofs Proofs.LoadsStreamProofs Proofs.LoadsFilterProofs.
-From LV Require Model.LoaderExt Model.StreamFilt Spec.StreamCodecSpec Model.Png Proofs.ObjStmSpellProofs.
+From LV Require Model.LoaderExt Model.StreamFilt Spec.StreamCodecSpec Model.Png Proofs.ObjStmSpellProofs Proofs.LengthRefProofs Gen.SaveFmt.
 Local Open Scope N_scope.
 
 (* (1) Cross-reference streams.  For ALL field widths (0 = field absent, any positive width, not all three
@@ -673,6 +673,78 @@ Proof.
       split; [vm_compute; discriminate|]. vm_compute. lia.
 Qed.
 
+(* INDIRECT STREAM LENGTHS, both paths of lopdf, against c01's Model/LoaderExt.v, for a stream object in ANY spelling whose
+   Length entry is a reference "li lg R".
+   (1) EAGER (C02_length_ref_lookup + C02_length_ref_eager): while the stream is parsed Reader::get_object looks the length
+       up -- the cross-reference entry of (li, lg) is an entry in use of that generation, the integer object there, in any
+       spelling, is read (chain of at most MAX_LENGTH_CHAIN references, no cycle) -- and parser::_indirect_object returns the
+       stream with exactly its data, whatever follows "endobj".
+   (2) DEFERRED (C02_length_ref_deferred + C02_length_ref_content): when the look-up fails (the table is still empty while
+       the cross-reference stream is read; the length object lives in an object stream) the stream comes back with empty
+       content and the position of its data in the buffer, and Reader::read_stream_content, run over the LOADED objects,
+       cuts exactly the data out of the buffer and sets Length to its size. *)
+Theorem C02_length_ref_eager :
+  forall (id gen : N) (d : dict) (c : bytes) (y : istyle) (post : bytes) (li lg : N),
+    id <= u32_max -> gen <= u16_max -> spell_wf (ODict d) (i_obj y) -> (nest (ODict d) <= MAX_DEPTH)%nat ->
+    dict_get d RefWriter.K_Length = Some (ORef li lg) ->
+    forall (buf : bytes) (lenref : N * N -> LoaderExt.lenres) (expected : option (N * N)),
+      lenref (li, lg) = LoaderExt.LnOk (Z.of_nat (length c)) ->
+      match expected with Some e => e = (id, gen) | None => True end ->
+      LoaderExt.indirect_with buf (w_indirect id gen (OStream d c) y ++ post) expected lenref =
+      LoaderExt.IxOk (id, gen) (stream_new (denote_dict d (dict_sts (i_obj y))) c) None.
+Proof. exact LengthRefProofs.indirect_ref_length_eager. Qed.
+
+Theorem C02_length_ref_lookup :
+  forall (k : nat) (buf : bytes) (x : xmap) (seen : list oid) (li lg : N) (z : Z) (yl : istyle) (off : N) (post : bytes),
+    existsb (oid_eqb (li, lg)) seen = false -> (S (length seen) <= SaveFmt.MAX_LENGTH_CHAIN)%nat ->
+    LoaderExt.get_offset x (li, lg) = Some off -> off <= blen buf ->
+    from off buf = w_indirect li lg (OInt z) yl ++ post ->
+    li <= u32_max -> lg <= u16_max -> in_i64 z = true ->
+    LoaderExt.get_length (S k) buf x seen (li, lg) = LoaderExt.LnOk z.
+Proof. exact LengthRefProofs.get_length_finds. Qed.
+
+Theorem C02_length_ref_deferred :
+  forall (id gen : N) (d : dict) (c : bytes) (y : istyle) (post : bytes) (li lg : N),
+    id <= u32_max -> gen <= u16_max -> spell_wf (ODict d) (i_obj y) -> (nest (ODict d) <= MAX_DEPTH)%nat ->
+    dict_get d RefWriter.K_Length = Some (ORef li lg) ->
+    forall (pre : bytes) (lenref : N * N -> LoaderExt.lenres) (expected : option (N * N)),
+      lenref (li, lg) = LoaderExt.LnNone ->
+      match expected with Some e => e = (id, gen) | None => True end ->
+      exists before,
+        w_indirect id gen (OStream d c) y ++ post = before ++ c ++ LengthRefProofs.after_data c y post /\
+        LoaderExt.indirect_with (pre ++ w_indirect id gen (OStream d c) y ++ post) (w_indirect id gen (OStream d c) y ++ post)
+                                expected lenref =
+        LoaderExt.IxOk (id, gen) (OStream (denote_dict d (dict_sts (i_obj y))) []) (Some (blen (pre ++ before))).
+Proof. exact LengthRefProofs.indirect_ref_length_deferred. Qed.
+
+Theorem C02_length_ref_content :
+  forall (buf : bytes) (m : objmap) (p : LoaderExt.posmap) (id : oid) (dct : dict) (li lg start : N) (content rest : bytes),
+    lookup m id = Some (OStream dct []) -> dict_get dct Obj.K_Length = Some (ORef li lg) ->
+    lookup m (li, lg) = Some (OInt (Z.of_nat (length content))) ->
+    LoaderExt.pos_get p id = Some start -> start <= blen buf -> from start buf = content ++ rest ->
+    LoaderExt.read_stream_content buf m p id =
+    insert m id (OStream (dict_set dct Obj.K_Length (OInt (Z.of_nat (length content)))) content).
+Proof. exact LengthRefProofs.read_stream_content_sets. Qed.
+
+Definition ex_lr_stream : bytes :=
+  w_indirect 5 0 (OStream [(bs "Length", ORef 6 0)] (bs "abc")) default_istyle ++ [x0a].
+Definition ex_lr_buf : bytes := ex_lr_stream ++ w_indirect 6 0 (OInt 3) default_istyle ++ [x0a].
+Definition ex_lr_x : xmap := [(5, XNormal 0 0); (6, XNormal (blen ex_lr_stream) 0)].
+
+(* non-vacuity: "5 0 obj <</Length 6 0 R>> stream abc endstream endobj 6 0 obj 3 endobj": with the table the length is
+   found while parsing (eager); with the empty table the stream comes back empty with its data position 33, and
+   read_stream_content over the loaded objects restores the content (deferred) *)
+Theorem C02_example_length_ref :
+  LoaderExt.get_length 3 ex_lr_buf ex_lr_x [] (6, 0) = LoaderExt.LnOk 3 /\
+  LoaderExt.indirect_x ex_lr_buf ex_lr_x ex_lr_buf None =
+    LoaderExt.IxOk (5, 0) (OStream [(bs "Length", OInt 3)] (bs "abc")) None /\
+  LoaderExt.indirect_x ex_lr_buf [] ex_lr_buf None =
+    LoaderExt.IxOk (5, 0) (OStream [(bs "Length", ORef 6 0)] []) (Some 33) /\
+  LoaderExt.read_stream_content ex_lr_buf
+    [((5, 0), OStream [(bs "Length", ORef 6 0)] []); ((6, 0), OInt 3)] [((5, 0), 33)] (5, 0) =
+    [((5, 0), OStream [(bs "Length", OInt 3)] (bs "abc")); ((6, 0), OInt 3)].
+Proof. repeat split; vm_compute; reflexivity. Qed.
+
 (* the frame: Reader::read reduced to its pieces, for any file junk ++ F *)
 Theorem C02_load_frame :
   forall (junk F pre xr : bytes) version x0 t0 objs,
@@ -830,6 +902,11 @@ Print Assumptions C02_filter_chain_decodes.
 Print Assumptions C02_loads_stream_filtered_partial.
 Print Assumptions C02_filtered_trailer_reading.
 Print Assumptions C02_example_loads_stream_filtered.
+Print Assumptions C02_length_ref_eager.
+Print Assumptions C02_length_ref_lookup.
+Print Assumptions C02_length_ref_deferred.
+Print Assumptions C02_length_ref_content.
+Print Assumptions C02_example_length_ref.
 Print Assumptions C02_load_frame.
 Print Assumptions C02_example_loads_table.
 Print Assumptions C02_example_object.
